@@ -124,6 +124,13 @@ struct Case {
   std::vector<int> molorder;  // type of each molecule
   bool hasPos, hasVel, hasF;
   std::string tag;
+  // molecules of the atomistic topology that are NOT mapped: placed before mapped molecule `before` (== molorder.size():
+  // at the end); atoms (and bead names) copied from type `type`; kind 0: name matches a --map-ignore pattern,
+  // kind 1: no mapping definition carries this name (CreateCGTopology warns and skips it)
+  struct Skip { int before, type, kind; };
+  std::vector<Skip> skips;
+  std::vector<int> skip_atoms;  // global atom indices of the skipped molecules (filled when the topology is built)
+  std::string skip_name(const Skip &k) const { return (k.kind == 0 ? "IGN" : "UNK") + types[k.type].name; }
 };
 
 static std::string g17(double x) {
@@ -356,6 +363,12 @@ static J case_json(const Case &C, const Frame *F, const std::vector<BeadRef> &re
   std::string ms = "[";
   for (size_t m = 0; m < C.molorder.size(); ++m) ms += (m ? ",\"" : "\"") + C.types[C.molorder[m]].name + "\"";
   j.raw("molecules_in_order", ms + "]");
+  if (!C.skips.empty()) {
+    std::string sk = "[";
+    for (size_t i = 0; i < C.skips.size(); ++i)
+      sk += std::string(i ? "," : "") + "{\"before_mapped_molecule\":" + std::to_string(C.skips[i].before) + ",\"name\":\"" + C.skip_name(C.skips[i]) + "\",\"atoms_like\":\"" + C.types[C.skips[i].type].name + "\"}";
+    j.raw("unmapped_molecules", sk + "]").s("map_ignore", "IGN*");
+  }
   (void)refs;
   if (F) {
     std::vector<double> bm;
@@ -431,6 +444,8 @@ static void gen_frame(vfh::Rng &r, const Case &C, const std::vector<int> &atom0,
       }
     }
   }
+  for (int i : C.skip_atoms)  // atoms of molecules that are not mapped: anywhere
+    F.pos[i] = B.kind == 0 ? Eigen::Vector3d(r.uni(-50, 50), r.uni(-50, 50), r.uni(-50, 50)) : Eigen::Vector3d(B.m * Eigen::Vector3d(r.uni(), r.uni(), r.uni()));
   if (kindtag == "oversize" || kindtag == "threshold") {
     // pick a molecule / bead with at least two parents
     std::vector<std::pair<int, int>> cand;
@@ -518,6 +533,18 @@ int main(int argc, char **argv) {
     const bool vary_flags = q.coin(0.3);   // positions/velocities/forces appear and disappear between frames
     const int step_mode = (int)q.range(0, 2);  // 0: every frame has the same step and time (like .gro), 1: increasing, 2: repeats
     const bool twin = q.coin(0.5);         // second CG topology built from a second, identical atomistic topology (one per worker thread in CsgApplication)
+    if (q.coin(0.3)) {  // molecules the mapping skips (--map-ignore pattern / no definition), before, between and after the mapped ones
+      int ns = (int)q.range(1, 3);
+      for (int i = 0; i < ns; ++i) {
+        int pc = (int)q.range(0, 3);
+        int before = pc == 0 ? 0 : pc == 1 ? (int)C.molorder.size() : (int)q.range(0, (long)C.molorder.size());
+        C.skips.push_back({before, (int)q.range(0, (long)C.types.size() - 1), (int)q.range(0, 1)});
+      }
+      std::stable_sort(C.skips.begin(), C.skips.end(), [](const Case::Skip &a, const Case::Skip &b) { return a.before < b.before; });
+      bool lead = false;
+      for (auto &k : C.skips) if (k.before < (int)C.molorder.size()) lead = true;
+      R.counter(lead ? "cases_with_unmapped_molecule_before_a_mapped_one" : "cases_with_unmapped_molecules_last");
+    }
     for (auto &T : C.types) {
       std::map<std::string, int> use;
       for (auto &bd : T.beads) use[bd.mapname]++;
@@ -530,7 +557,23 @@ int main(int argc, char **argv) {
     std::vector<int> atom0;
     int natoms = 0;
     auto build_atomistic = [&](Topology &tp, bool count) {
-      for (size_t m = 0; m < C.molorder.size(); ++m) {
+      auto add_skipped = [&](int before) {
+        for (auto &k : C.skips) {
+          if (k.before != before) continue;
+          const MolType &T = C.types[k.type];
+          Molecule *mi = tp.CreateMolecule(C.skip_name(k));
+          const Residue &res = tp.CreateResidue(T.name);
+          for (size_t a = 0; a < T.mass.size(); ++a) {
+            if (!tp.BeadTypeExist(T.atype[a])) tp.RegisterBeadType(T.atype[a]);
+            Bead *b = tp.CreateBead(Bead::spherical, "A" + std::to_string(a + 1), T.atype[a], res.getId(), T.mass[a], 0.0);
+            mi->AddBead(b, "1:" + T.name + ":A" + std::to_string(a + 1));
+            if (count) C.skip_atoms.push_back(natoms++);
+          }
+        }
+      };
+      for (size_t m = 0; m <= C.molorder.size(); ++m) {
+        add_skipped((int)m);
+        if (m == C.molorder.size()) break;
         const MolType &T = C.types[C.molorder[m]];
         Molecule *mi = tp.CreateMolecule(T.name);
         const Residue &res = tp.CreateResidue(T.name);
@@ -564,6 +607,7 @@ int main(int argc, char **argv) {
       Silence qs;
       try {
         cg.LoadMoleculeType(files);
+        if (!C.skips.empty()) cg.AddIgnore("IGN*");
         map = cg.CreateCGTopology(top, cgtop);
         // the same engine serves a second target topology (CsgApplication: one per worker)
         map2 = cg.CreateCGTopology(twin ? top2 : top, cgtop2);
